@@ -124,8 +124,13 @@ def build_orbit(node, spec, propagator=None):
     return orb
 
 
+def is_ephem(obj):
+    """An Ephem (public surface only: it interpolates and has a start, a state vector has neither)."""
+    return hasattr(obj, "interpolate") and hasattr(obj, "start") and not hasattr(obj, "date")
+
+
 def epoch_of(obj):
-    return obj.start if hasattr(obj, "_orbits") else obj.date
+    return obj.start if is_ephem(obj) else obj.date
 
 
 def date_key(d):
@@ -163,9 +168,9 @@ def digest_state(sv):
 
 
 def digest_obj(obj):
-    if hasattr(obj, "_orbits"):
+    if is_ephem(obj):
         h = hashlib.md5()
-        for o in obj._orbits:
+        for o in list(obj):
             h.update(digest_state(o).encode())
         return h.hexdigest()
     return digest_state(obj)
